@@ -249,7 +249,7 @@ SCHED_WRAPS = ["malloc", "free", "calloc", "realloc", "strdup", "strndup", "strl
                "sprintf", "snprintf", "vsprintf", "vsnprintf", "strcat", "strncat", "stpcpy", "strtok_r", "strsep",
                "idn2_to_ascii_8z", "strtok", "strerror", "rand", "srand", "setlocale", "getenv", "setenv", "unsetenv", "putenv", "clearenv", "abort", "__assert_fail",
                "pthread_mutex_lock", "pthread_mutex_trylock", "pthread_mutex_unlock", "pthread_mutex_init", "pthread_mutex_destroy",
-               "pthread_rwlock_rdlock", "pthread_rwlock_wrlock", "pthread_rwlock_unlock", "pthread_once"]
+               "pthread_rwlock_rdlock", "pthread_rwlock_wrlock", "pthread_rwlock_unlock", "pthread_once", "sched_yield"]
 
 # externals of the library objects that the C14 runtime models (anything else is reported as unmodelled)
 SCHED_MODELLED = set(SCHED_WRAPS) | {"__ctype_b_loc", "__ctype_tolower_loc", "__ctype_toupper_loc", "idn2_strerror", "__errno_location",
@@ -274,7 +274,8 @@ def build_sched(variant="", defs=(), backend="idn2"):
     inc = ["-I" + os.path.join(REPO, "include"), "-I" + REPO] + BACKEND_DEFS[backend] + list(defs)
     plain = ["-O1", "-g", "-gdwarf-4", "-fno-omit-frame-pointer", "-fPIC"]
     rt_o = os.path.join(d, "rt.o"); sm_o = os.path.join(d, "sched_sim.o")
-    jobs = [[CXX, "-std=c++17", "-Wall"] + plain + ["-c", os.path.join(sim, "sched/rt.cpp"), "-o", rt_o],
+    simdefs = [x for x in defs if x.startswith("-DSIM_")]
+    jobs = [[CXX, "-std=c++17", "-Wall"] + plain + simdefs + ["-c", os.path.join(sim, "sched/rt.cpp"), "-o", rt_o],
             [CXX, "-std=c++17", "-Wall"] + plain + inc + ["-c", os.path.join(sim, "sched/sched_sim.cpp"), "-o", sm_o]]
     more = []
     if backend != "idn2":       # the libidn / idnkit stand-in (uninstrumented, like the real library would be) over the same converter
